@@ -339,6 +339,7 @@ def scen_public_finalize(env):
     s1 = edzed.Input('s1', initdef=1)
     sink = edzed.Input('sink', initdef=0)
     c0 = edzed.Or('c0').connect('s0', '_not_s1')
+    spare = edzed.And('spare')          # never connected (an empty group): connect() after the finalisation must be refused
     by_name = env.choose(2, 'events_by_name')
     with_ctrl = env.choose(2, 'with_control_event')
     fk = env.choose(3, 'filter')
@@ -366,7 +367,8 @@ def scen_public_finalize(env):
         ok = False
         res['access'] = err
     env.check('by-name-resolved', ok, info=lambda: (by_name, fk, res, sorted(blocks)))
-    for what, fn in (('addblock', lambda: edzed.Input('late', initdef=0)), ('connect', lambda: edzed.And('late2').connect(s0)),
+    for what, fn in (('addblock', lambda: edzed.Input('late', initdef=0)), ('connect', lambda: spare.connect(s0)),
+                     ('not-block', lambda: edzed.Not('late3')),
                      ('storage', lambda: circ.set_persistent_data({}))):
         try:
             fn()
